@@ -39,10 +39,18 @@ CaseInv == vKind # "none" =>
              LET a == Lex(TextOf(Orig)) b == Lex(TextOf(Var)) IN
              a.err.kind = "none" /\ b.err.kind = "none" /\ a.toks = b.toks
 
+\* the id part of a suffixed spelling (X-only, X-or-later; the suffix itself is matched exactly) may be written in any case too
+Suffixes == {"-only", "-or-later"}
+CaseSufInv == vKind = "lic" =>
+                \A suf \in Suffixes : LET a == Lex(Orig \o suf) b == Lex(Var \o suf) IN a.err.kind = b.err.kind /\ a.toks = b.toks
+
 ResJ(e, a) == LET r == SatisfiesSpec(e, a) IN [sat |-> r.sat, err |-> r.err]
 CallJ(e, a) == [e |-> e, a |-> a]
 Same(e1, a1, e2, a2) == PrintT(ToJson([k |-> "same", calls |-> <<CallJ(e1, a1), CallJ(e2, a2)>>,
                                         exp |-> <<ResJ(e1, a1), ResJ(e2, a2)>>,
+                                        posdep |-> ~SatPositionIndependent(e1, a1) \/ ~SatPositionIndependent(e2, a2)]))
+SameA(e1, a1, e2, a2, amb) == PrintT(ToJson([k |-> "same", calls |-> <<CallJ(e1, a1), CallJ(e2, a2)>>,
+                                        exp |-> <<ResJ(e1, a1), ResJ(e2, a2)>>, amb |-> amb,
                                         posdep |-> ~SatPositionIndependent(e1, a1) \/ ~SatPositionIndependent(e2, a2)]))
 In3(s) == P2 \o " AND (" \o s \o " OR " \o P1 \o " WITH " \o ExcIds[1] \o ")"
 
@@ -61,6 +69,13 @@ Emit == vKind # "none" =>
               LET b == VarOf(DropSuffix(Orig, 9)) \o "+" IN
               /\ PrintT(ToJson([k |-> "str", s |-> b, valid |-> Valid(b), compound |-> FALSE, amb |-> SetToSeqS(Parse(b).amb)]))
               /\ Same(o, <<o>>, b, <<o>>) /\ Same(LicRel[vIdx], <<o>>, LicRel[vIdx], <<b>>)
+        /\ vKind = "lic" =>                              \* the id part of a suffixed spelling in variant case (R1: the oracle speaks
+              \A suf \in Suffixes :                        \* only about active ids without a suffix; elsewhere the two calls must still agree)
+                 LET os == o \o suf  vs == v \o suf
+                     amb == IF Orig \in ActiveSet /\ ~HasSuffix(Orig, "-only") /\ ~HasSuffix(Orig, "-or-later") THEN <<>> ELSE <<"suffix-outside-R1">>
+                 IN /\ SameA(os, <<os>>, vs, <<os>>, amb) /\ SameA(os, <<os>>, os, <<vs>>, amb)
+                    /\ SameA(In3(os), <<P2, os>>, In3(vs), <<P2, os>>, amb)
+                    /\ SameA(LicRel[vIdx], <<os>>, LicRel[vIdx], <<vs>>, amb)
         /\ vKind = "lic" =>                              \* a match that goes through the version range, both ways
               /\ Same(LicRel[vIdx], <<o>>, LicRel[vIdx], <<v>>)
               /\ Same(o, <<LicRel[vIdx]>>, v, <<LicRel[vIdx]>>)
